@@ -54,7 +54,7 @@ def single(args):
             for i, p in enumerate(prob.parameters):
                 lo = ctx.real('lb%d' % i)
                 hi = ctx.real('ub%d' % i)
-                ctx.assume(lo < hi)
+                ctx.assume(lo <= hi)
                 p['bounds'] = [lo, hi]
         else:
             for p in prob.parameters:
